@@ -7,7 +7,7 @@ from lib.core import existing_modules
 from props import c01
 
 ID = "C02"
-LEVEL = "other"
+LEVEL = "proof"
 LEAN_MODULES = ['Sonic.Props.C02', 'Sonic.Props.C05']
 REQUIRED_THEOREMS = ["Sonic.Props.C02." + n for n in ["C02_no_fault", "C02_reads_bounded", "C02_stack_bounded", "C02_node_full", "C02_teardown_init", "C02_reusable",
                                                          "C02_no_leak"]]
@@ -29,8 +29,8 @@ TRUSTED = ["ASan/UBSan/LSan, mmap guard pages and the harness ledger as observer
 LEVEL_TEXT = ("Machine-checked proof (Lean 4) over the checked-memory parser model: for ANY bytes, width, padding and stale stack content no "
               "read/write outside the len+64 buffer, no node-stack index >= max(16,len/2+2), no use or destruction of an unconstructed slot, "
               "document reusable afterwards, nothing leaked (C02_no_fault, C02_reads_bounded, C02_stack_bounded, C02_teardown_init, C02_reusable, "
-              "C02_no_leak) - the only number-related hypothesis left is the decidable guard ExpSmall (every number-like token has a written exponent below 100000 in absolute value; known finding F6 lives outside it) - the number model itself is proved against the exact reference for every conversion path (C04). What a model cannot exhibit (real UB of compiled code, "
-              "the heap) is validated by sanitizer, guard-page, dirty-heap and ledger runs of the real code: partial by nature, level 'other'.")
+              "C02_no_leak) - the only number-related hypothesis left is the decidable guard ExpSmall (each number-like token is at most 9600 bytes long or has a written exponent below 100000 in absolute value - so every text of at most 9600 bytes satisfies it; known finding F6 lives outside it) - the number model itself is proved against the exact reference for every conversion path (C04). What a model cannot exhibit (real UB of compiled code, "
+              "the heap) is outside any model; the model is tied to the compiled code by sanitizer, guard-page (incl. guarded non-freeing pool and user-buffer pool between canaries), dirty-heap and ledger runs on the differential corpus.")
 LEVEL_NOTE = "Trusted: Lean kernel; sanitizers, guard pages, tracking allocator; compiled Lean evaluation of the spec."
 TECHNIQUE = "Lean 4 checked-memory model theorems + sanitizer/guard-page/ledger validation of the real code on a differential corpus"
 
